@@ -108,6 +108,13 @@ CLAIMS = {
             "success paths, every inserting/removing public member reaches a counter change of the right direction, size() reports the counter. "
             "Sortedness, exactly-once traversal, tree order, AVL balance, skip-list level property are runtime heap shape: NOT decided.",
             "static analysis: path tables (value numbering) + call-graph reachability of counter effects", "DESIGN.md §4 C18"),
+    "C19": ("other", "Path rules over IterableList::iterator_type and FeldmanHashSet::iterator_base (HP/DHP): whatever an iterator exposes is read "
+            "from its own guard; the position moves onto a slot only on a path where the guard protected that very slot and the protected value "
+            "was re-validated (other position stores: end-of-container, guard-copying copies); steps are exactly one link / one slot (forward "
+            "m_idx+1,+1,child from 0,parent at idxParent+1; backward mirrored); erase_at(iterator) removes by a CAS on the iterator's own slot "
+            "expecting the iterator's guarded pointer, retires only on the winning path and reports the CAS outcome. 'Visits every element "
+            "present during the whole iteration' as a behavioural statement and RCU iterators are NOT decided.",
+            "static analysis: value-numbered path tables on enumerated CFG paths + affine forms of the index definitions", "DESIGN.md §4 C19"),
     "C20": ("other", "Path-effect consistency over every container member that touches the item counter: counter changed at most once and only on "
             "success paths, success/new-item paths change it (elimination paths exempt), update functor flag bNew agrees with the returned pair "
             "and with counting, no callback or counter change on failing paths. Agreement with std:: reference models over call sequences is "
